@@ -602,11 +602,7 @@ theorem SrepeatArr_ref (a : Arr) (k : Nat) (toks : List Tok) (hw : WF a) :
       symm
       refine abs_eq_of_rows _ _ _ _ _ _ _ _ ?h1 ?h2 ?hnm ?hr ?h5 ?h6 ?h7 <;> try rfl
       case hnm => simp [abs, mapVals, List.map_map, Function.comp_def]
-      case h5 =>
-        have : toks.length = a.coord.length * (a.n * k) := by
-          have h0 : toks.length = k * a.coord.length * a.n := by simpa using hlen
-          rw [h0, Nat.mul_comm k, Nat.mul_assoc, Nat.mul_comm k]
-        exact (chunks_spec (a.n * k) a.coord.length toks this).1
+      case h5 => simp [repCoord]
       case h7 =>
         cases hb : a.bonds with
         | none => rfl
@@ -624,10 +620,6 @@ theorem SrepeatArr_ref (a : Arr) (k : Nat) (toks : List Tok) (hw : WF a) :
           · exact h0
         have hmod : t % a.n < a.n := Nat.mod_lt _ hn
         rw [abs_at a _ hmod]
-        have htoks : toks.length = a.coord.length * (a.n * k) := by
-          have h0 : toks.length = k * a.coord.length * a.n := by simpa using hlen
-          rw [h0, Nat.mul_comm k, Nat.mul_assoc, Nat.mul_comm k]
-        have hch := chunks_spec (a.n * k) a.coord.length toks htoks
         simp only [row, mapVals, List.map_map, Function.comp_def]
         congr 1
         · apply List.map_congr_left
@@ -636,12 +628,10 @@ theorem SrepeatArr_ref (a : Arr) (k : Nat) (toks : List Tok) (hw : WF a) :
           have := tile_getD p.2 k t (by rw [hl, Nat.mul_comm]; exact ht)
           rw [hl] at this
           rw [this]
-        · rw [← map_range_id (chunks (a.n * k) a.coord.length toks) [], List.map_map, hch.1]
+        · simp only [repCoord, List.map_map, Function.comp_def]
           apply List.map_congr_left
-          intro m hm
-          simp only [Function.comp_def]
-          exact chunks_getD _ _ _ _ _ (by simpa using hm) ht
-
+          intro m _
+          exact getD_map_range _ _ _ _ ht
 
 /-! ## equality of annotations / bonds, model assignment, stacking -/
 
